@@ -19,13 +19,13 @@ def run(ctx):
                 "(empty ranks) x off-process index sets x on-process maps x derived packages; every buffer compared with the "
                 "owners' values (= what the standard package delivers, C03); non-trivial = data crosses ranks")
     rng = ctx.rng
-    procs = ctx.scale([2, 4, 6], [2, 3, 4, 6, 8, 9, 12, 16])
+    procs = ctx.scale([2, 4, 6, 8], [2, 3, 4, 6, 8, 9, 12, 16])
     per = ctx.scale(30, 200)
     for P in procs:
         lay = layouts(P, ctx.tier == "thorough")
         cases = []
         for k in range(per):
-            ppn, ordering = rng.choice(lay)
+            ppn, ordering = rng.choice(lay) if rng.random() < 0.5 else rng.choice([l for l in lay if 1 < l[0] < P] or lay)
             mode = rng.choice([1, 2])
             cases.append(commgen.gen_case(rng, "t%d_%d" % (P, k), P, mode=mode, ppn=ppn, ordering=ordering))
             ctx.count("layout_ppn%d_ord%d" % (ppn, ordering))
